@@ -84,10 +84,13 @@ pub fn plan(id: &str) -> Option<Plan> {
         },
         "C04" => Plan {
             id: "C04",
-            rule: "scenario = seeded breaker config (count/time window, sizes, thresholds incl. 0 and 1, minimum below/equal/above/default, permitted 1-4, slow-call detection, custom classifier, presets) + sequential history of 5-260 steps over {ok, fail, slow, class-B error, flagged ok, wait d, force_open, force_closed, reset}; after every step state().await/state_sync()/is_open()/metrics().state and 'inner invoked' are compared with a forking reference machine; non-trivial iff >=1 transition and history longer than the window; distinct = (state/invoked/instant sequence, config) signature",
+            rule: "scenario = seeded breaker config (count/time window, sizes, thresholds incl. 0 and 1, minimum below/equal/above/default, permitted 1-4, slow-call detection, custom classifier, presets) + sequential history of 5-260 steps over {ok, fail, slow, class-B error, flagged ok, wait d, force_open, force_closed, reset}; after every step state().await/state_sync()/is_open()/metrics().state and 'inner invoked' are compared with a forking reference machine; non-trivial iff >=1 transition and history longer than the window; distinct = (state/invoked/instant sequence, config) signature. concurrent: the C03/C09 scenarios judged on the transition rules that remain decidable under concurrency (half-open closes only after `permitted` successful trials of that episode, re-opens only after a failed or abandoned trial, open leaves only by elapsed wait or manual override)",
             assumptions: BASE_ASSUMPTIONS.to_vec(),
             floor: 50,
-            engines: vec![Engine { name: "sim", salt: 1, quick: 6000, thorough: 400_000, serial: false, run: Box::new(|s, t| c04::scenario(s, t)) }],
+            engines: vec![
+                Engine { name: "sim", salt: 1, quick: 6000, thorough: 400_000, serial: false, run: Box::new(|s, t| c04::scenario(s, t)) },
+                Engine { name: "concurrent", salt: 2, quick: 4000, thorough: 200_000, serial: false, run: Box::new(|s, t| c03::scenario("C04", s, t)) },
+            ],
             extra: None,
         },
         "C03" => Plan {
@@ -170,6 +173,7 @@ pub fn plan(id: &str) -> Option<Plan> {
             floor: 50,
             engines: vec![
                 Engine { name: "sim", salt: 1, quick: 6000, thorough: 300_000, serial: false, run: Box::new(|s, t| c13::scenario(s, t)) },
+                Engine { name: "extreme", salt: 4, quick: 3000, thorough: 200_000, serial: false, run: Box::new(|s, _t| c13::extreme(s)) },
                 Engine { name: "stress", salt: 2, quick: 16, thorough: 64, serial: false, run: Box::new(|s, t| c13::stress(s, t.pick(50, 500))) },
                 Engine { name: "miri", salt: 3, quick: 2, thorough: 16, serial: false, run: Box::new(|s, t| miri::run("C13", s, 1, Some(t.pick(16, 64) as u32), 0.1)) },
             ],
